@@ -156,7 +156,14 @@ def gen_small(rw):
         use = rw.choice([[("DUP1", None), ("ADD", None)], [("DUP1", None), ("SWAP2", None), ("POP", None)], [("DUP1", None), ("DUP3", None), ("LT", None)],
                          [("DUP1", None)], [("DUP1", None), ("MUL", None)]])
         return exp + use
-    if r < 0.6:
+    if r < 0.5:
+        # ternary bait: a three-operand instruction whose first, second or third operand is computed right before it and moved
+        # into place with one SWAP; the block needs its whole length bound, so a position window that is one too narrow is unsat
+        comp = rw.choice([[("DUP1", None), ("MLOAD", None)], [("DUP2", None), ("DUP2", None), ("ADD", None)], [("CALLER", None)],
+                          [("DUP1", None), ("ISZERO", None)], [("DUP3", None), ("SLOAD", None)], [("PUSH", "7")]])
+        place = rw.choice([[], [("SWAP1", None)], [("SWAP2", None)], [("SWAP2", None)]])
+        return comp + place + [(rw.choice(["ADDMOD", "MULMOD"]), None)] + rw.choice([[], [], [("SWAP1", None)]])
+    if r < 0.7:
         # recompute bait: the block itself computes an expensive value twice, so the bound leaves room both for the program
         # that duplicates it and for the one that recomputes it -- two models that differ in how often the instruction runs
         if rw.random() < 0.6:
